@@ -54,6 +54,15 @@ FullSyncMove<SlotType, BUFFER_SIZE> {
         // if !BUFFER_SIZE.is_power_of_two() {
         //     panic!("FullSyncMeta: BUFFER_SIZE must be a power of 2, but {BUFFER_SIZE} was provided.");
         // }
+        #[cfg(feature = "verif")]
+        if let Some(origin) = crate::verif::sequence_origin() {
+            return Self {
+                head:              UnsafeCell::new(origin),
+                tail:              UnsafeCell::new(origin),
+                concurrency_guard: AtomicBool::new(false),
+                buffer:            UnsafeCell::new(Box::pin([0; BUFFER_SIZE].map(|_| ManuallyDrop::new(slot_initializer())))),
+            }
+        }
         Self {
             head:              UnsafeCell::new(0),
             tail:              UnsafeCell::new(0),
@@ -102,7 +111,9 @@ FullSyncMove<SlotType, BUFFER_SIZE> {
 
     #[inline(always)]
     fn available_elements_count(&self) -> usize {
+        #[cfg(feature = "verif")] crate::verif::point(crate::verif::FS_LEN_QUERY);
         let tail = unsafe { &* self.tail.get() };
+        #[cfg(feature = "verif")] crate::verif::point(crate::verif::FS_LEN_BETWEEN_READS);
         let head = unsafe { &* self.head.get() };
         tail.overflowing_sub(*head).0 as usize
     }
@@ -136,6 +147,7 @@ FullSyncMove<SlotType, BUFFER_SIZE> {
         match self.consume_leaking_internal(|| false) {
             Some( (slot_ref, _len_before) ) => {
                 let item = unsafe { Some(ptr::read(slot_ref)) };
+                #[cfg(feature = "verif")] crate::verif::point(crate::verif::FS_CONSUME_AFTER_READ);
                 self.release_leaked_internal();
                 ogre_sync::unlock(&self.concurrency_guard);
                 item
@@ -192,6 +204,7 @@ FullSyncMove<SlotType, BUFFER_SIZE> {
         let mut len_before;
         loop {
             ogre_sync::lock(&self.concurrency_guard);
+            #[cfg(feature = "verif")] crate::verif::point(crate::verif::FS_LEAK_LOCKED);
             let tail = *unsafe { &* self.tail.get() };
             let head = *unsafe { &* self.head.get() };
             len_before = tail.overflowing_sub(head).0;
@@ -212,6 +225,7 @@ FullSyncMove<SlotType, BUFFER_SIZE> {
     /// -- assumes the lock is in the acquired state
     #[inline(always)]
     pub fn publish_leaked_internal(&self) {
+        #[cfg(feature = "verif")] crate::verif::point(crate::verif::FS_PUBLISH_BEFORE);
         let tail = unsafe { &mut * self.tail.get() };
         *tail = tail.overflowing_add(1).0;
         ogre_sync::unlock(&self.concurrency_guard);
@@ -238,6 +252,7 @@ FullSyncMove<SlotType, BUFFER_SIZE> {
         let mut len_before;
         loop {
             ogre_sync::lock(&self.concurrency_guard);
+            #[cfg(feature = "verif")] crate::verif::point(crate::verif::FS_CONSUME_LOCKED);
             let head = *unsafe { &mut * self.head.get() };
             len_before = self.available_elements_count() as i32;
             if len_before > 0 {
